@@ -76,3 +76,8 @@ M("c20-hit-bookkeeping-after-checkpoint", "C20", FN, Q,
   "                    if self._always_checkpoint:\n                        await checkpoint()\n\n                    self._hits += 1\n                    cache_entry.move_to_end(key)\n", ["R20-b"])
 N("c20-n-drop-own-placeholder-on-failure", "C20", FN, Q, "                    value = await self.__wrapped__(*args, **kwargs)\n                    expires_at",
   "                    try:\n                        value = await self.__wrapped__(*args, **kwargs)\n                    except BaseException:\n                        del cache_entry[key]\n                        raise\n\n                    expires_at")
+
+# from seeded change C20/h (round 4)
+M("c20-falsy-instance-dropped", "C20", FN, "_LRUMethodWrapper.__call__",
+  "        if self.__instance is None:\n            return await self.__wrapper(*args, **kwargs)\n\n        return await self.__wrapper(self.__instance, *args, **kwargs)",
+  "        if self.__instance:\n            return await self.__wrapper(self.__instance, *args, **kwargs)\n\n        return await self.__wrapper(*args, **kwargs)", ["R20-f"])
